@@ -32,8 +32,17 @@ def scenarios(rng, tier):
             if rng.random() < 0.5: s.frame(1, query(M, B, seq=rng.randrange(1, 65536)))
     return [(s.text(), {})]
 def project(blk, name, meta):
+    # B's QueryResps as sets of observations; everything else by the kinds of frames sent
     if blk.fault: return ('fault',)
-    if blk.op.startswith(('frame', 'relay')): return tuple(blk.acts)
+    if blk.op.startswith('frame 1'):
+        d = frame_hdr(blk)
+        if d and d['tos'] == 0 and d['opc'] == 6:
+            r = []
+            for _, _, o in blk.sends():
+                q = qresp_fields(o)
+                r.append((q['more'], tuple(sorted(q['descs']))) if q else o)
+            return tuple(r)
+    if blk.op.startswith(('frame', 'relay')): return send_opcodes(blk)
     return ()
 def oracle(name, ib, mb, meta):
     fails = []; A = B = None; expect = {}; unexpected = set()
